@@ -189,7 +189,8 @@ def cmd_check(args):
     cov = ev["coverage"]
     print(
         f"{pid} {tier}: runs={cov['evaluations']} distinct_nontrivial={cov['distinct_nontrivial']} checked={cov.get('checked_reads')} "
-        f"faults={cov.get('faults_fired')} violations={len(viol_lines)} known={len(known_seen)} harness_errors={len(harness_errors)} wall={wall:.1f}s"
+        f"faults={cov.get('faults_fired')} violations={len(viol_lines)} violating_runs={sum(1 for r in all_results if r.get('status') == 'violation')} "
+        f"known={len(known_seen)} harness_errors={len(harness_errors)} wall={wall:.1f}s"
     )
     if viol_lines:
         return 1
